@@ -79,6 +79,9 @@ def catalogue():
     points = {
         "base": base, "equal-copy": base.copy(), "9th-digit": base + np.array([[1e-9, 0.0], [0.0, 0.0]]), "12th-digit": base + np.array([[0.0, 0.0], [0.0, 3e-12]]),
         "other": base + 0.1, "transposed-order": base[::-1].copy(), "three": np.vstack([base, [[0.1, 0.2]]]), "fortran-layout": np.asfortranarray(base),
+        # the C-ordered point set whose MEMORY holds the same value sequence as the Fortran-ordered array above (logically other points)
+        "fortran-memory-twin": np.ascontiguousarray(np.asfortranarray(base).ravel(order="K").reshape(base.shape)),
+        "strided-view": np.array([[0.25, 9.0, 0.25, 9.0], [0.5, 9.0, 0.125, 9.0]])[:, ::2],
         "big": big, "big-middle-differs": big2, "float32": base.astype(np.float32),
     }
     for pn, p in points.items():
